@@ -99,6 +99,18 @@ Theorem C14_shape_recognised : shape_recognised = true.
 Proof. exact shape_ok. Qed.
 Print Assumptions C14_shape_recognised.
 
+(* the rest of the library (serializer included, failing paths included) never calls a
+   locale-changing function: regenerated source check over all library files; its locale protocol
+   is therefore the empty path, which leaves the caller's locale alone *)
+Theorem C14_no_stray_locale_calls : stray_locale_calls = 0%nat.
+Proof. exact no_stray_locale_calls. Qed.
+Print Assumptions C14_no_stray_locale_calls.
+
+Theorem C14_empty_path_leaves_locale : forall en,
+  cur (run en []) = HEntry /\ cur_forced_c (run en []) = false /\ live (run en []) = [] /\ bad (run en []) = false.
+Proof. exact empty_path_leaves_locale. Qed.
+Print Assumptions C14_empty_path_leaves_locale.
+
 (* every exit behind the switch passes the restore statement and releases what was created *)
 Theorem C14_locale_restored_all_exits :
   Forall (fun e => after_switch e = true -> restores e = true /\ frees_created e = true) exits.
